@@ -4,9 +4,11 @@ src/encode/bc.rs `BC7_UNORM`).  Every f32 result (endpoint fit, `Quantization::p
 the error estimates of `get_best`/`get_best_2`, the errors compared by `pick_best_of_directly`) is a PARAMETER of the
 definitions below, never computed: the theorems hold for whatever the float code returns.
 
-These definitions are control-flow transcriptions that the differential tie does not reach (the tie of C13 compares
-emitted blocks, which depend on the float search); they are backed by the oracle clause `opaque-lost` and the
-self-test M6 (notes/C13.md).
+The definitions (`bc7ModesTried`, `possiblePBits`, `pickBestStates`, `pickBestOfDirectly`, `pSwap`, `singleAlpha`, …) live
+in the model file `Enc13.lean` and are evaluated by the driver on every run: `Enc13.bc7Rule` turns them into a constraint
+on the header fields of the emitted block (mode, rotation, p-bits, alpha endpoint fields), which the tie compares with the
+fields read back from what `dds::encode` emitted (notes/C13.md, "Tie").  They are also backed by the oracle clause
+`opaque-lost` and the self-tests M6, M11–M22 (notes/C13.md).
 
 What is and is not discrete, for a fully opaque, not single-coloured block (the single-coloured one is
 `compress_single_color`, proved exact in `Proofs/Bc7Single.lean`):
@@ -30,28 +32,6 @@ namespace Dds.Enc13
 open Dds Dds.Bc
 
 /-! ### which modes are tried (`compress_bc7_block`, bc7.rs lines 95–136; presets: bc.rs lines 480–491, 526) -/
-
-/-- `Bc7Modes::MODEk` (bit flags) -/
-def MODE (k : Nat) : Nat := 1 <<< k
-
-/-- `allowed_modes` of the quality presets (`BC7_UNORM` in bc.rs); `force_modes` is always empty there -/
-def bc7Allowed : Quality → Nat
-  | .fast => MODE 0 ||| MODE 4 ||| MODE 6
-  | .normal => MODE 1 ||| MODE 3 ||| MODE 4 ||| MODE 5 ||| MODE 6 ||| MODE 7
-  | .high => 255
-  | .unreasonable => 255
-
-/-- the mode set after filtering, from `stats.min.a`, `stats.max.a`, `allowed_modes`, `force_modes`
-(`opaque() = (min.a == 255)`, `single_alpha().is_some() = (min.a == max.a)`) -/
-def bc7ModesTried (minA maxA allowed force : Nat) : Nat :=
-  let modes := MODE 4 ||| MODE 5
-  let modes := if minA = 255 then modes ||| (MODE 0 ||| MODE 1 ||| MODE 2 ||| MODE 3) else modes ||| MODE 7
-  let modes :=
-    if minA = maxA ∨ maxA ≠ 255 ∨ (minA ≠ 255 ∧ allowed &&& (MODE 4 ||| MODE 5 ||| MODE 7) = 0) then modes ||| MODE 6
-    else modes
-  let modes := modes &&& allowed
-  let modes := if modes = 0 then allowed else modes
-  if force ≠ 0 then force else modes
 
 /-- opaque block (`min.a = 255`, hence `max.a = 255`): whenever the options allow at least one of the modes 0–6,
 mode 7 is not tried and some mode is; in particular at every quality preset the tried modes are exactly the allowed
@@ -78,33 +58,6 @@ theorem mixed_no_mode6 : ∀ minA, minA < 255 → ∀ q, bc7ModesTried minA 255 
   exact of_decide_eq_true this h q (by cases q <;> decide)
 
 /-! ### p-bits of `compress_rgba` (modes 6 and 7): bc7.rs lines 629–631, 757–808, 1574–1580, 1602–1609 -/
-
-/-- `UniquePBits::ALL` -/
-def ALL_UNIQUE : List (Bool × Bool) := [(false, false), (false, true), (true, false), (true, true)]
-
-/-- `let possible_p_bits = if opaque { Some(&[[true, true]]) } else { None }` (`opaque` = all pixels of the
-subset have `a == 255`) -/
-def possiblePBits (allOpaque : Bool) : Option (List (Bool × Bool)) := if allOpaque then some [(true, true)] else none
-
-/-- `PBitHandling::pick_best`: the states handed to `pick_best_of_directly`.  `best1`, `best2` stand for
-`get_best` / `get_best_2` (f32 estimates, not modelled). -/
-def pickBestStates {S : Type} (all : Option (List S)) (ALL : List S) (maxComb : Nat) (best1 : List S → S)
-    (best2 : List S → List S) : List S :=
-  let all := all.getD ALL
-  if all.length = 1 ∨ all.length ≤ maxComb then all
-  else if maxComb = 1 then [best1 all]
-  else if maxComb = 2 then best2 all
-  else ALL
-
-/-- `pick_best_of_directly`: the first state of strictly smallest error.  `err` stands for the `u32` error that the
-float search `f` returns for a state (not modelled); `none` = `possibilities[0]` panics. -/
-def pickBestOfDirectly {S : Type} (poss : List S) (err : S → Nat) : Option S :=
-  match poss with
-  | [] => none
-  | p :: rest => some (rest.foldl (fun (best : Nat × S) p => if err p < best.1 then (err p, p) else best) (err p, p)).2
-
-/-- `p.swap(0, 1)` together with the endpoints when the anchor index needs it (`Compressed::mode6`, `mode7`) -/
-def pSwap (p : Bool × Bool) (swap : Bool) : Bool × Bool := if swap then (p.2, p.1) else p
 
 /-- the state chosen is one of the states offered -/
 theorem pickBestOfDirectly_mem {S : Type} (poss : List S) (err : S → Nat) (s : S)
@@ -150,15 +103,6 @@ theorem opaque_pbits (maxComb : Nat) (best1 : List (Bool × Bool) → Bool × Bo
   cases swap <;> rfl
 
 /-! ### constant alpha in modes 4 and 5 (`compress_color_separate_alpha_with_rotation`, bc7.rs lines 534–545) -/
-
-/-- `Alpha::<A>::promote` -/
-def promoteAlpha (A v : Nat) : Nat := if A = 8 then v else Bc7.promote v A
-
-/-- the single-alpha branch: `round`, `floor`, `ceil` are the results of `Alpha::<A>::round/floor/ceil(a·(1/255))`
-(f32, not modelled).  Returns the two endpoints and whether the exact branch (`IndexList::constant(0)`, error 0) was
-taken; in the other branch the indexes come from `closest_alpha` (float-independent integer search, not modelled). -/
-def singleAlpha (A a round floor ceil : Nat) : (Nat × Nat) × Bool :=
-  if promoteAlpha A round = a then ((round, round), true) else ((floor, ceil), false)
 
 /-- exact branch: both stored endpoints promote to exactly `a`, so every interpolation weight gives back `a` -/
 theorem singleAlpha_exact (A a round floor ceil : Nat) (h : (singleAlpha A a round floor ceil).2 = true) (w : Nat)
